@@ -159,6 +159,25 @@ def case_shell(rng, tier):
     T = float(rng.choice([0.0, -1.0, 1.0]) * 10 ** rng.uniform(-1, 1)) if clc else 0.0
     if clc == 3 and T == 0.0:
         T = 1.0
+    if clc:
+        # the fixed load of a combined case at 20..60% of its own critical value, so that it matters in M = k0 + kG0_fixed
+        try:
+            cu_ = gen.build_shell(d)
+            cu_.Fc = 1.0; cu_.P = 1.0; cu_.T = 1.0
+            cu_._calc_linear_matrices(combined_load_case=clc, silent=True)
+            num0_ = __import__('compmech.conecyl.modelDB', fromlist=['db']).db[d['model']]['num0']
+            Gfix = eig.dense({1: cu_.kG0_T, 2: cu_.kG0_P, 3: cu_.kG0_Fc}[clc])[num0_:, num0_:]
+            lp, ln, _, _ = eig.ref_buckling(eig.dense(cu_.k0)[num0_:, num0_:], Gfix)
+            frac = float(rng.uniform(0.2, 0.6))
+            crit = float(lp.min()) if lp.size else (-float(np.abs(ln).min()) if ln.size else 0.0)
+            if clc == 1:
+                T = frac * crit
+            elif clc == 2:
+                P = frac * crit
+            else:
+                Fc = frac * crit; T = float(rng.choice([-1., 1.]) * 10 ** rng.uniform(-1, 1))
+        except Exception:
+            pass
     desc = dict(src='shell', shell=d, k=k, combined_load_case=clc, Fc=Fc, P=P, T=T)
     c = Case(desc)
     c.tag('src:shell_method', 'model:' + d['model'], 'geom:cone' if d['alphadeg'] else 'geom:cylinder', 'clc:%s' % clc)
